@@ -4,6 +4,7 @@
 package seams
 
 import (
+	"bytes"
 	"encoding/json"
 	"errors"
 	"fmt"
@@ -42,6 +43,8 @@ type Codec struct {
 	OnWrite func(raw []byte)
 	// OnRead observes every message handed to ReadMessage's caller.
 	OnRead func(raw []byte)
+	// blockRequests: see SetBlockRequests
+	blockRequests bool
 }
 
 type dir struct {
@@ -195,8 +198,27 @@ func (c *Codec) WriteMessage(msg *jsonrpc2.Message) error {
 	return c.WriteRaw(b)
 }
 
+// SetBlockRequests: from now on requests (not replies) written on this end block as if the peer had stopped reading.
+func (c *Codec) SetBlockRequests(v bool) {
+	c.mu.Lock()
+	c.blockRequests = v
+	c.mu.Unlock()
+}
+
+func (c *Codec) blocksRequests() bool {
+	c.mu.Lock()
+	defer c.mu.Unlock()
+	return c.blockRequests
+}
+
 // WriteRaw queues raw bytes as one message (hostile peers use it directly).
 func (c *Codec) WriteRaw(b []byte) error {
+	if c.blocksRequests() && bytes.Contains(b, []byte(`"method"`)) {
+		// the peer has stopped reading and its buffers are full: the write blocks until the connection ends
+		c.sim.Fault("write_blocks_peer_not_reading")
+		<-c.closed
+		return ErrClosed
+	}
 	// (off by default; scenarios in which several goroutines of the code under test can write to one connection
 	// within a macro-step turn it on so that the scheduler, not the Go runtime, orders the writes)
 	c.sim.Yield("prewrite", c.name)
